@@ -86,7 +86,9 @@ def main():
     all_units = [u for u in registry.UNITS if prop in u["props"]]
     if args.unit:
         all_units = [u for u in all_units if u["id"] in args.unit]
-    sel = [u for u in all_units if tier == "thorough" or u.get("tier", "quick") == "quick"]
+    def unit_tier(u):
+        return (u.get("tier_for") or {}).get(prop, u.get("tier", "quick"))
+    sel = [u for u in all_units if tier == "thorough" or unit_tier(u) == "quick"]
     if not sel:
         log(f"no units registered for {prop}")
         return core.EXIT_UNDECIDED
@@ -261,6 +263,9 @@ def write_evidence(prop, tier, seed, sel, results, obligations, failed, undecide
     for r in results:
         solver[r["unit"]] = {"wall_s": r.get("wall_s"), "solver_time_s": r.get("solver_time_s"),
                              "checks_generated": r.get("checks_total")}
+        if r.get("ignored_checks"):
+            solver[r["unit"]]["ignored_dealloc_model_checks"] = sorted(set(r["ignored_checks"]))
+            solver[r["unit"]]["covers_satisfied"] = [c["name"] for c in r.get("covers", []) if c["status"] == "SATISFIED"]
     assumed, bounded, trusted = [], {}, set()
     files = [os.path.join(VERIF, "lib", "units.py")]
     for u in sel:
